@@ -1,45 +1,6 @@
-// Command vh is the Go side of the verification machinery: replayers that step
-// TLC-generated behaviours through go-ipld-prime, and recorders that write
-// traces of the real code for TLC to validate.
+// Command vh: see package vhcmd.
 package main
 
-import (
-	"flag"
-	"fmt"
-	"os"
-)
+import "verifharness/vhcmd"
 
-type cmd struct {
-	name string
-	help string
-	run  func(args []string) int
-}
-
-var cmds []cmd
-
-func register(name, help string, run func(args []string) int) {
-	cmds = append(cmds, cmd{name, help, run})
-}
-
-func main() {
-	if len(os.Args) < 2 {
-		usage()
-		os.Exit(2)
-	}
-	for _, c := range cmds {
-		if c.name == os.Args[1] {
-			os.Exit(c.run(os.Args[2:]))
-		}
-	}
-	usage()
-	os.Exit(2)
-}
-
-func usage() {
-	fmt.Fprintln(os.Stderr, "usage: vh <command> [flags]")
-	for _, c := range cmds {
-		fmt.Fprintf(os.Stderr, "  %-14s %s\n", c.name, c.help)
-	}
-}
-
-func newFlags(name string) *flag.FlagSet { return flag.NewFlagSet(name, flag.ExitOnError) }
+func main() { vhcmd.Main() }
